@@ -30,13 +30,15 @@ type Opts struct {
 }
 
 type AssertStat struct {
-	Checked    int
-	Discharged int
-	ConcreteOK int
-	Violated   int
-	Unknown    int
-	HuntUnknown int
-	Ms         float64
+	Checked        int
+	Discharged     int
+	ConcreteOK     int
+	Violated       int
+	Unknown        int
+	HuntUnknown    int
+	CrossConfirmed int // thorough tier: discharged obligations re-proved by at least one other solver
+	CrossUnknown   int // thorough tier: discharged obligations no other solver could re-prove in time
+	Ms             float64
 }
 
 type Violation struct {
@@ -187,6 +189,19 @@ func Run(P *engine.Program, fn *ssa.Function, o Opts) *Summary {
 				switch a.Result {
 				case "discharged":
 					st.Discharged++
+					if len(a.Cross) > 0 {
+						ok := false
+						for _, r := range a.Cross {
+							if r == "unsat" {
+								ok = true
+							}
+						}
+						if ok {
+							st.CrossConfirmed++
+						} else {
+							st.CrossUnknown++
+						}
+					}
 				case "concrete-ok":
 					st.ConcreteOK++
 				case "violated":
